@@ -3,6 +3,7 @@ package gcetcbendorsement
 import (
 	"bytes"
 	"context"
+	"google.golang.org/protobuf/proto"
 
 	epb "github.com/google/gce-tcb-verifier/proto/endorsement"
 	cpb "github.com/google/go-sev-guest/proto/check"
@@ -200,7 +201,7 @@ func verifC17Tdx(rows int, withBase bool) {
 		if !opts.Overwrite && b.TdQuoteBodyPolicy != nil {
 			verifAssert(b.TdQuoteBodyPolicy.AnyMrTd == nil, "without overwrite an MRTD allow-list set in the base is not replaced")
 		}
-		verifAssert(verifDeepEqual(res.HeaderPolicy, b.HeaderPolicy), "the header part of the base is carried over")
+		verifAssert(proto.Equal(res.HeaderPolicy, b.HeaderPolicy), "the header part of the base is carried over")
 		if b.TdQuoteBodyPolicy != nil {
 			verifAssert(bytes.Equal(res.TdQuoteBodyPolicy.MrSeam, b.TdQuoteBodyPolicy.MrSeam) && bytes.Equal(res.TdQuoteBodyPolicy.MrTd, b.TdQuoteBodyPolicy.MrTd) &&
 				bytes.Equal(res.TdQuoteBodyPolicy.ReportData, b.TdQuoteBodyPolicy.ReportData), "unrelated quote-body fields of the base are carried over")
